@@ -42,18 +42,38 @@ WellFormedTrace(x) ==
 (***************************************************************************)
 (* final data: equal where the statement determines it                     *)
 (***************************************************************************)
+FieldDiff(ai, key, f, m) ==
+    (IF f.x # m.x THEN {<<ai, key, "x">>} ELSE {})
+    \cup (IF f.v # m.v THEN {<<ai, key, "v">>} ELSE {})
+    \cup (IF f.g # m.g THEN {<<ai, key, "g">>} ELSE {})
+    \cup (IF ~ m.ts /\ f.s # m.s THEN {<<ai, key, "s">>} ELSE {})
+    \cup (IF ~ m.ta /\ f.au # m.au THEN {<<ai, key, "au">>} ELSE {})
+
+\* particle p of the record against particle p of the machine
 StateDiff(fin, ps) ==
     IF Len(fin) # Len(ps) THEN {<<0, 0, "arrays">>}
     ELSE UNION {
         IF Len(fin[ai]) # Len(ps[ai]) THEN {<<ai, 0, "count">>}
+        ELSE UNION {FieldDiff(ai, p, fin[ai][p], ps[ai][p])
+                    : p \in 1..Len(ps[ai])}
+        : ai \in 1..Len(ps)}
+
+\* hooks changed the population: pysph does not specify the order inside the
+\* real / ghost part of an array; particles are identified by their uid,
+\* the real ones must still come first
+StateDiffByUid(fin, ps) ==
+    IF Len(fin) # Len(ps) THEN {<<0, 0, "arrays">>}
+    ELSE UNION {
+        IF Len(fin[ai]) # Len(ps[ai]) THEN {<<ai, 0, "count">>}
         ELSE UNION {
-            LET f == fin[ai][p]  m == ps[ai][p]
-            IN (IF f.x # m.x THEN {<<ai, p, "x">>} ELSE {})
-               \cup (IF f.v # m.v THEN {<<ai, p, "v">>} ELSE {})
-               \cup (IF f.g # m.g THEN {<<ai, p, "g">>} ELSE {})
-               \cup (IF ~ m.ts /\ f.s # m.s THEN {<<ai, p, "s">>} ELSE {})
-               \cup (IF ~ m.ta /\ f.au # m.au THEN {<<ai, p, "au">>} ELSE {})
-            : p \in 1..Len(ps[ai])}
+               LET m == ps[ai][p]
+                   S == {q \in 1..Len(fin[ai]) : fin[ai][q].uid = m.uid}
+               IN IF Cardinality(S) # 1 THEN {<<ai, m.uid, "uid">>}
+                  ELSE LET q == CHOOSE q \in S : TRUE
+                       IN FieldDiff(ai, m.uid, fin[ai][q], m)
+                          \cup (IF fin[ai][q].g # (q > NRof(ps[ai]))
+                                THEN {<<ai, m.uid, "order">>} ELSE {})
+               : p \in 1..Len(ps[ai])}
         : ai \in 1..Len(ps)}
 
 \* shipped steppers (no logging probes): no ghost was touched by the step
@@ -80,7 +100,9 @@ SameLog(x, real, mach) ==
 Reg(i, d) == IF d THEN NT + i ELSE i
 
 Verdict ==
-    LET diff == IF T.vis THEN StateDiff(T.fin, parts) ELSE {}
+    LET diff == IF ~ T.vis THEN {}
+                ELSE IF HasPop(T) THEN StateDiffByUid(T.fin, parts)
+                ELSE StateDiff(T.fin, parts)
         gt   == IF T.vis THEN {} ELSE GhostTouched(T)
         fl   == FailedLog(T, T.log)
     IN [id |-> T.id, done |-> TRUE, wf |-> TRUE, df |-> df,
